@@ -11,16 +11,18 @@ namespace Sys
 open Cluster
 
 /-- the quantities of the buffer the conservation argument is about -/
-def bq (b : Buffer) : Int × Int × List (Oid × Int) × List Oid := (b.hot.total, b.hot.cur, b.size, b.hot.finished)
+def bq (b : Buffer) : Int × Int × List (Oid × Int) × List Oid × Cold :=
+  (b.hot.total, b.hot.cur, b.size, b.hot.finished, b.cold)
 
 theorem deposit_ok (b : Buffer) (o : Oid) (r : Int) (h : (b.deposit o r).2 = none) :
+    (b.deposit o r).1.cold = b.cold ∧
     (b.deposit o r).1.hot.cur = b.hot.cur - r ∧ (b.deposit o r).1.hot.total = b.hot.total ∧
     (b.deposit o r).1.hot.finished = b.hot.finished ∧
     ∀ x, (b.deposit o r).1.sizeOf x = if x = o then b.sizeOf o + r else b.sizeOf x := by
   unfold Buffer.deposit at h ⊢
   split
   · rename_i hgt; simp [hgt] at h
-  · refine ⟨rfl, rfl, rfl, fun x => ?_⟩
+  · refine ⟨rfl, rfl, rfl, rfl, fun x => ?_⟩
     unfold Buffer.sizeOf
     simp only
     rw [dictGet_dictSet]
@@ -38,6 +40,7 @@ theorem deposit_err (b : Buffer) (o : Oid) (r : Int) (e : Err) (h : (b.deposit o
 
 /-- a successful deposit for `oid` at the rate of `ob` -/
 def Dep (s X : Sys) (oid : Oid) (ob : Obs) : Prop :=
+  X.buf.cold = s.buf.cold ∧
   X.buf.hot.cur = s.buf.hot.cur - ob.rate ∧ X.buf.hot.total = s.buf.hot.total ∧
   X.buf.hot.finished = s.buf.hot.finished ∧
   ∀ x, X.buf.sizeOf x = if x = oid then s.buf.sizeOf oid + ob.rate else s.buf.sizeOf x
